@@ -135,7 +135,7 @@ def scenarios(tier):
             fa, fo = ['--threadless', '--enable-reverse-proxy'], {'plugins': [rev_plugin()]}
             origins = {ADDR['u1']: origin('u1'), ADDR['u2']: origin('u2'), ADDR['u1b']: origin('u1b')}
         for seq, conn in [(sq, 'none') for sq in sequences(tier)] + \
-                [(sq, cn) for cn in ('ka-lower', 'ka-title', 'close-last', 'http10-last') + (('ka-list',) if tier == 'thorough' else ())
+                [(sq, cn) for cn in ('ka-lower', 'ka-title', 'ka-list', 'close-last', 'http10-last')
                  for sq in sequences(tier) if len(sq) == 2 or (len(sq) == 3 and tier == 'thorough')]:
             built = [mkreq(role, s, i, conn, last=(i == len(seq) - 1)) for i, s in enumerate(seq)]
             reqs = [b[0] for b in built]
